@@ -166,10 +166,10 @@ class CSSImportRule(cssrule.CSSRule):
             def _ident(expected, seq, token, tokenizer=None):
                 # medialist ending with ; which is checked upon too
                 if expected.startswith('media'):
+                    # includes the found token, which may be "("
                     mediatokens = self._tokensupto2(
-                        tokenizer, importmediaqueryendonly=True
+                        tokenizer, starttoken=token, importmediaqueryendonly=True
                     )
-                    mediatokens.insert(0, token)  # push found token
 
                     last = mediatokens.pop()  # retrieve ;
                     lastval, lasttyp = self._tokenvalue(last), self._type(last)
@@ -208,6 +208,9 @@ class CSSImportRule(cssrule.CSSRule):
                 val = self._tokenvalue(token)
                 if expected.endswith(';') and ';' == val:
                     return 'EOF'
+                elif expected.startswith('media') and '(' == val:
+                    # a media query may start with an expression
+                    return _ident(expected, seq, token, tokenizer)
                 else:
                     new['wellformed'] = False
                     self._log.error('CSSImportRule: Unexpected char.', token)
